@@ -18,14 +18,15 @@ RULE = ("plan = left list + right list (0..7 items each quick / 0..15 thorough; 
         "Distinct = plan hash.")
 CASES = {"quick": 3000, "thorough": 16000}
 
-KV = {"i": [None, 0, 1, 2, 0, 1, -1, -2], "s": [None, "x", "y"]}      # hash(-1) == hash(-2) in CPython
+KV = {"i": [None, 0, 1, 2, 0, 1, -1, -2], "s": [None, "x", "y"],
+      "tu": [None, [2019, 1], [2019, 2], [2020, 1]]}      # tuple-valued keys (a (year, month) period): lists in the plan, tuples in the items      # hash(-1) == hash(-2) in CPython
 
 
 @st.composite
 def _plan(draw, max_items):
     op = draw(st.sampled_from(["left", "left", "inner", "semi", "anti", "full", "full", "aggregate", "aggregate"]))
     nk = draw(st.sampled_from([1, 1, 2]))
-    kinds = [draw(st.sampled_from(["i", "s"])) for _ in range(nk)]
+    kinds = [draw(st.sampled_from(["i", "s", "i", "s", "tu"])) for _ in range(nk)]
     by = []
     for j in range(nk):
         ln = f"k{j}"
@@ -94,6 +95,7 @@ def _eq(a, b):
 
 
 def nontrivial(plan):
+    plan = _norm(plan)
     L, R = plan["left"], plan["right"]
     if plan["op"] == "aggregate":
         keys = [tuple(x[a] for a, _ in plan["by"]) for x in L]
@@ -126,7 +128,19 @@ def _by_arg(plan):
     return [a if a == b else (a, b) for a, b in plan["by"]]
 
 
+def _tuples(item):
+    return {k: tuple(v) if isinstance(v, list) else v for k, v in item.items()}
+
+
+def _norm(plan):
+    plan = dict(plan, left=[_tuples(x) for x in plan["left"]], right=[_tuples(x) for x in plan["right"]])
+    if plan.get("edits"):
+        plan["edits"] = [[i, k, tuple(v) if isinstance(v, list) else v, w] for i, k, v, w in plan["edits"]]
+    return plan
+
+
 def check(plan, ctx):
+    plan = _norm(plan)
     op = plan["op"]
     ctx.cls("op_" + op)
     L = di.ListOfDicts([dict(x) for x in plan["left"]])
@@ -257,7 +271,13 @@ def _check_aggregate(plan, L, ctx):
 
 def _check_aggregate_once(by, items, grouped, ctx, phase):
     L = grouped
-    out = ctx.call(phase + "aggregate", lambda: grouped.aggregate(n=len, ids=lambda g: g.pluck("_lid")))
+    lazy = {}
+    out = ctx.call(phase + "aggregate", lambda: grouped.aggregate(
+        n=len, ids=lambda g: g.pluck("_lid"),
+        # summary functions that do not consume their argument at once: a generator, a map, a kept reference
+        lz=lambda g: lazy.setdefault(len(lazy), (x["_lid"] for x in g)) and 0,
+        mp=lambda g: lazy.setdefault(len(lazy), map(lambda x: x["_lid"], g)) and 0,
+        kp=lambda g: lazy.setdefault(len(lazy), g) and 0))
     groups = {}
     for it in items:
         groups.setdefault(tuple((type(it[k]).__name__, it[k]) for k in by), []).append(it)
@@ -277,7 +297,15 @@ def _check_aggregate_once(by, items, grouped, ctx, phase):
         d = {name: v[1] for name, v in zip(by, k)}
         d["n"] = len(groups[k])
         d["ids"] = [x["_lid"] for x in groups[k]]
+        d["lz"] = d["mp"] = d["kp"] = 0
         want.append(d)
+    # what the lazy summaries see when they are finally consumed: still their own group's items (three per group, in
+    # the order the functions were called)
+    seen = [[x["_lid"] for x in v] if isinstance(v, di.ListOfDicts) else list(v) for _, v in sorted(lazy.items())]
+    want_seen = [d["ids"] for d in want for _ in range(3)]
+    if sorted(seen) != sorted(want_seen):
+        raise Violation(phase + "aggregate: a summary function that keeps (or lazily reads) its argument sees other items than its group's",
+                        got=seen, want=want_seen)
     got = [dict(x) for x in out]
     if [_typed(x) for x in got] != [_typed(x) for x in want]:
         raise Violation(phase + "aggregate differs from the dict-grouping reference", got=got, want=want)
